@@ -160,6 +160,10 @@ def run(eng: Engine, ck: Check):
               g is not None, 'dispatch not dominated by a `not self._is_closing` test made after the read',
               construct='dispatch guarded by _is_closing')
 
+    from . import defs as _defs_emit
+    _defs_emit.event_bus_emit_contains(eng, ck, 'R-C10-CLOSED-ALWAYS', 'set_state() awaits the state report of every connection; an escaping listener failure turns a close into an exception in the closing task')
+    _defs_emit.identity_semantics(eng, ck, 'R-C10-REGISTRY', [('PeerConnection', CONN), ('ServerConnection', CONN), ('ListeningConnection', CONN)],
+                                  'the registry removes a closed connection with `in` / list.remove(); two connections to one endpoint are different connections')
     # ---- R-C10-REGISTRY
     net_cls = repo.cls('Network', NET)
     adders = eng.mutations_of_attr('peer_connections', ['append', 'add', 'insert', 'extend'])
@@ -282,3 +286,4 @@ def run(eng: Engine, ck: Check):
 
 def recv_name(r: ast.AST) -> str:
     return chain_str(r) or unparse(r)
+    _defs_emit.enum_members_distinct(eng, ck, 'R-C10-TYPESTATE', [('ConnectionState', CONN), ('CloseReason', CONN), ('PeerConnectionState', CONN)], 'every life-cycle test compares against one state')
